@@ -82,10 +82,8 @@ fn two_var_expr(r: &mut Rng, k: Kind, a: Expr, c: Expr, for_assign: bool) -> Exp
         Kind::Num => Expr::Bin { l: b(a), op: *r.pick(&['+', '-', '*']), r: b(c), tight: r.chance(1, 6) },
         Kind::Money => if for_assign || r.chance(2, 3) { Expr::Bin { l: b(a), op: *r.pick(&['+', '-']), r: b(c), tight: false } } else { Expr::Bin { l: b(a), op: '/', r: b(c), tight: false } },
         Kind::Dur => Expr::Bin { l: b(a), op: '+', r: b(c), tight: false },
-        Kind::Date => if for_assign { a } else { Expr::Between { a: b(a), b: b(c) } },
-        // the difference of two clock times held in variables that were bound on different simulated days is
-        // not defined by any statement (C11 judges differences of literals); no such line
-        Kind::Time => a,
+        // (two clock times: the model judges the difference only when both were anchored on the same day)
+        Kind::Date | Kind::Time => if for_assign { a } else { Expr::Between { a: b(a), b: b(c) } },
         Kind::Unit => Expr::Bin { l: b(a), op: *r.pick(&['+', '-']), r: b(c), tight: false },
         Kind::Pct => a,
     }
